@@ -308,3 +308,47 @@ def receive(direction, script, stream, max_chunk=None, cuts=(), timeouts=(), tcl
     r.leftover = len(q.buf)
     r.recv_calls, r.timeouts_raised, r.short_reads = q.recv_calls, q.timeouts_raised, q.short_reads
     return r
+
+
+# ------------------------------------------------------------------ violation keys
+# One defect usually shows in many cells of the enumerated space.  Workers report every failing case
+# with its *signature* (clause + a few named dimensions); the parent folds all signatures of a clause
+# into one stable key: a dimension is left out when the defect shows for every value of it, otherwise
+# the values are listed.  Keys therefore name the violated clause and the minimal input class.
+
+def sig_violation(acc, clause, dims, detail, replay):
+    sig = "|".join("%s=%s" % (k, dims[k]) for k in sorted(dims))
+    acc.count("VSIG|%s|%s" % (clause, sig))
+    acc.violation("%s|%s" % (clause, sig), detail, replay)
+
+
+def regroup(ck, universes):
+    """Fold per-signature violations of ck.acc into one violation per clause (see above).
+
+    universes: dim -> set of all values the enumeration covers for that dim."""
+    acc = ck.acc
+    by_clause = {}
+    for name in [n for n in acc.counters if n.startswith("VSIG|")]:
+        n = acc.counters.pop(name)
+        _, clause, sig = name.split("|", 2)
+        dims = dict(p.split("=", 1) for p in sig.split("|")) if sig else {}
+        by_clause.setdefault(clause, []).append((dims, n))
+    out = []
+    for clause in sorted(by_clause):
+        sigs = by_clause[clause]
+        parts = [clause]
+        for dim in sorted(universes):
+            seen = set(d.get(dim) for d, _ in sigs if dim in d)
+            if not seen or seen >= set(str(v) for v in universes[dim]):
+                continue
+            parts.append("%s=%s" % (dim, "+".join(sorted(seen))))
+        reps = sorted((v for v in acc.violations if v["key"].split("|", 1)[0] == clause),
+                      key=lambda v: (len(v["key"]), v["key"]))
+        if not reps:
+            continue
+        rep = reps[0]
+        detail = {"representative_case": rep["detail"], "failing_cases": sum(n for _, n in sigs),
+                  "distinct_signatures": len(sigs)}
+        out.append({"key": ":".join(parts), "detail": core.jsonable(detail), "replay": rep["replay"],
+                    "count": sum(n for _, n in sigs)})
+    acc.violations = out
